@@ -547,7 +547,7 @@ def check_repeat_calls(ctx, case):
 
 
 def run(ctx):
-    n = ctx.n(250, 800)
+    n = ctx.n(250, 2400)
     for it in range(n):
         if ctx.out_of_time():
             ctx.notes.append(f'time budget reached after {it} cases')
